@@ -460,6 +460,23 @@ func Run(o *drv.Out) {
 			if verdict == "panic" {
 				o.Fail("C02:gate-panic", "the gate panicked", map[string]any{"op": op})
 			}
+			// two-step sequence: the SAME certificate (same signature bytes) that was just checked is offered again
+			// with every member's bit set — nothing learned from the first check (caches) may make it pass
+			if (dev == 0 || dev == -1) && qc.Signature != nil && len(qc.Signature.Bitmap) == (nm+7)/8 {
+				for i := 0; i < nm; i++ {
+					qc.Signature.Bitmap[i/8] |= 1 << uint(i%8)
+				}
+				d.sig = fmt.Sprintf("%d|%s|%s|%s", b2i(sigLenOK), bitsStr(qc.Signature.Bitmap), pstr, strings.Join(grp, ","))
+				op2 := fmt.Sprintf("gate node=%d,%d,%d,%d hdr=%s bh=%s rh=%s pk=%s blk=%s res=%s sig=%s coms=%s",
+					nn.height, nn.net, nn.chain, nn.maxBlock, d.hdr, d.bh, d.rh, d.pk, d.blk, d.res, d.sig, strings.Join(coms, "+"))
+				v2 := gate(&nn, qc)
+				o.Op(op2, v2)
+				o.Count("dev:recheck-all-bits-set")
+				o.Count("verdict:" + v2)
+				if v2 == "commit" && len(idxs) < nm {
+					o.Fail("C02:commit-with-unsigned-signer", "a certificate re-offered with unsigned signer bits set was committed", map[string]any{"op": op2, "first": op})
+				}
+			}
 		}
 	}
 }
